@@ -68,6 +68,13 @@ DateDiff(part, a, b) ==
     [] part = "week"    -> WeekNo(DaysFromCivil(b[1], b[2], b[3])) - WeekNo(DaysFromCivil(a[1], a[2], a[3]))
     [] part = "day"     -> DaysFromCivil(b[1], b[2], b[3]) - DaysFromCivil(a[1], a[2], a[3])
 
+\* DATEADD of a time part to a DATE gives a TIMESTAMP_NTZ: midnight of the date plus n units
+Pad6(n) == IF n < 10 THEN "00000" \o NatStr(n) ELSE IF n < 100 THEN "0000" \o NatStr(n) ELSE IF n < 1000 THEN "000" \o NatStr(n)
+           ELSE IF n < 10000 THEN "00" \o NatStr(n) ELSE IF n < 100000 THEN "0" \o NatStr(n) ELSE NatStr(n)
+SubDaySecs(part, n) == CASE part = "hour" -> 3600 * n [] part = "second" -> n [] part = "millisecond" -> n \div 1000 [] part = "microsecond" -> n \div 1000000
+SubDayMicros(part, n) == CASE part = "millisecond" -> (n % 1000) * 1000 [] part = "microsecond" -> n % 1000000 [] OTHER -> 0
+StampStr(t, secs, us) == DateStr(t) \o "T" \o Pad2(secs \div 3600) \o ":" \o Pad2((secs % 3600) \div 60) \o ":" \o Pad2(secs % 60)
+                         \o (IF us = 0 THEN "" ELSE "." \o Pad6(us))
 \* ---------------------------------------------------------------- TO_DECIMAL / TO_NUMBER / TO_NUMERIC
 \* x is the argument times 1000 (three fractional digits); result scaled by 10^s, rounded half AWAY from zero;
 \* more than p - s integer digits is an error (NULL for the TRY_ form)
@@ -113,6 +120,12 @@ Expected(op, D) ==
                THEN {Val(DateStr(CivilFromDays(DaysFromCivil(op.d[1], op.d[2], op.d[3]) + 90 * op.n)),
                          IF op.ctx \in {"insert", "update"} THEN "date" ELSE "datetime")}     \* a DATE column casts the timestamp back
                ELSE {})
+    [] op.fn = "dateaddsub" ->
+         LET secs == SubDaySecs(op.part, op.n)
+             day == CivilFromDays(DaysFromCivil(op.d[1], op.d[2], op.d[3]) + secs \div 86400) IN
+         {Val(StampStr(day, secs % 86400, SubDayMicros(op.part, op.n)), "datetime")}
+    [] op.fn = "totimestamp" ->    \* TO_TIMESTAMP[_NTZ](1700000000 * 10^scale + fraction, scale): a NAIVE timestamp, whatever the scale
+         {Val(IF op.scale = 0 THEN "2023-11-14T22:13:20" ELSE IF op.scale = 3 THEN "2023-11-14T22:13:20.123000" ELSE "2023-11-14T22:13:20.123456", "datetime")}
     [] op.fn = "datediff" ->
          {Val(IntStr(DateDiff(op.part, op.a, op.b)), "int")}
          \cup (IF "C10.datediff_week_not_monday_boundaries" \in D /\ op.part = "week"
@@ -173,6 +186,8 @@ Xs == IF Grid = "small" THEN {2500, -2500, 125, 999990} ELSE {0, 500, 1500, 2500
 Cases ==
   [fn : {"dateadd"}, part : Parts, n : Ns, d : Dates, ctx : CtxUsed]
   \cup [fn : {"datediff"}, part : Parts, a : Dates, b : Dates, ctx : {"select"}]
+  \cup [fn : {"dateaddsub"}, part : {"hour", "second", "millisecond", "microsecond"}, n : {5, 1500}, d : {<<2024, 1, 31>>, <<1970, 1, 1>>, <<1969, 12, 31>>}, ctx : {"select", "where", "cte"}]
+  \cup [fn : {"totimestamp"}, name : {"to_timestamp", "to_timestamp_ntz"}, scale : {0, 3, 6, 9}, ctx : {"select"}]
   \cup [fn : {"todec"}, name : {"to_decimal", "to_number", "to_numeric"}, how : {"str", "num"}, x : Xs, p : {4, 8}, s : {0, 1, 2}, try : BOOLEAN, ctx : {"select"}]
   \* precision and scale omitted (form "dflt": TO_NUMBER(x)) or a cast (form "cast": x::NUMBER): NUMBER(38,0); a FLOAT argument
   \cup [fn : {"todec"}, name : {"to_decimal", "to_number"}, how : {"str", "num", "flt"}, x : Xs, p : {38}, s : {0}, try : {FALSE}, form : {"dflt", "cast"}, ctx : {"select"}]
@@ -188,7 +203,7 @@ Cases ==
   \cup [fn : {"rerep"}, shape : {"digits", "lit_b", "letter_digits"}, s : Subjects, repl : {<<>>, <<"#">>}, ctx : {"selfnested", "upper_nested"}]
   \cup [fn : {"relation"}, rel : {"sha2_default_256", "sha2_hex_same", "sha2_binary_unhex", "sha2_abc_fips", "sha2_empty_fips",
                                  "random_same_seed_repeatable", "random_seed0_repeatable", "random_same_seed_equal", "sample_seed_repeatable", "identifier_is_name",
-                                 "join_alias_reuse", "join_alias_other_block"}, ctx : {"select"}]
+                                 "join_alias_reuse", "join_alias_other_block", "sha2_binary_arg_rejected_or_right"}, ctx : {"select"}]
   \cup [fn : {"valuescols"}, n : 1..3, ctx : {"select"}]
   \cup [fn : {"arrayagg"}, n : 1..3, order : {"none", "asc", "desc"}, ctx : {"select"}]
 Ops(st) == {o \in Cases : o.fn # "resub" \/ (o.grp = 0 \/ o.shape = "letter_digits")}
